@@ -307,7 +307,7 @@ pub fn drive(d: &mut Driver)
 	d.bound("casts", json!("all 110 ordered pairs of distinct integer types"));
 	d.bound("two-operator expressions (both nestings, referring to another constant)", json!(nested_types.iter().map(|i| INT_TYPES[*i].name).collect::<Vec<_>>()));
 	d.bound("named lengths", json!("constant expressions evaluating to 0..8; arrays of length 0..8 through name, view, slice pointer, pointer and two call levels"));
-	d.bound("size-of", json!("every primitive and pointer type, arrays of length 0..4, structs with every member list of length 1..3 over 11 member types, arrays of them"));
+	d.bound("size-of", json!("every primitive and pointer type, arrays of length 0..4, structs with every member list of length 1..3 over 11 member types, arrays of them; each size both inside main and as a constant that is declared before the structure and behind an unrelated function with a pointer parameter"));
 	d.phase("constant evaluation, lengths and sizes", jobs);
 	d.assume("reference arithmetic: engine/src/model/intval.rs (two's complement, wrapping, signedness-directed division and extension); cells with undefined behaviour (division by zero, MIN / -1, shift by the width or more) are excluded by the model");
 	d.assume("layout model: natural alignment capped at 8, pointers and usize 8 bytes, under the data layout string the generator installs");
@@ -703,6 +703,13 @@ fn sizes(first: usize, w: &mut WorkerCtx)
 	}
 	let mut text = String::new();
 	let mut expected: Vec<(String, usize, usize)> = Vec::new();
+	// the sizes as constants, declared before the structures they measure, each behind an unrelated
+	// function whose parameter type is a pointer (compile-time evaluation must not depend on what
+	// was declared before or on the structure being declared later)
+	for (i, _) in lists.iter().enumerate()
+	{
+		text.push_str(&format!("fn by{i}(p: &[]u8)\n{{\n}}\nconst K{i}: usize = |:S{i}|;\nconst A{i}: usize = |:[3]S{i}|;\n"));
+	}
 	for (i, l) in lists.iter().enumerate()
 	{
 		let members: Vec<&MemberTy> = l.iter().map(|k| &ms[*k]).collect();
@@ -729,7 +736,7 @@ fn sizes(first: usize, w: &mut WorkerCtx)
 	text.push_str("fn main() -> u8\n{\n");
 	for (i, _) in lists.iter().enumerate()
 	{
-		text.push_str(&format!("\tprint!(|:S{i}|, \" \", |:[3]S{i}|, \"\\n\");\n"));
+		text.push_str(&format!("\tprint!(|:S{i}|, \" \", |:[3]S{i}|, \" \", K{i}, \" \", A{i}, \"\\n\");\n"));
 	}
 	for (t, _) in &plain
 	{
@@ -759,13 +766,24 @@ fn sizes(first: usize, w: &mut WorkerCtx)
 			for (i, (members, size, size3)) in expected.iter().enumerate()
 			{
 				w.result.validated += 1;
-				let want = format!("{size} {size3}");
+				let want = format!("{size} {size3} {size} {size3}");
 				if lines[i] != want
 				{
 					let nums: Vec<&str> = lines[i].split(' ').collect();
-					let what = if nums.first().map(|n| *n != size.to_string()).unwrap_or(true) { "struct-size" } else { "array-of-struct-size" };
+					let what = if nums.first().map(|n| *n != size.to_string()).unwrap_or(true)
+					{
+						"struct-size"
+					}
+					else if nums.get(1).map(|n| *n != size3.to_string()).unwrap_or(true)
+					{
+						"array-of-struct-size"
+					}
+					else
+					{
+						"size-as-constant-declared-before-the-structure"
+					};
 					w.result.outcome("sizes:MISMATCH");
-					w.result.violation(&format!("wrong-size:{what}"), members.len() as u64, &desc, || format!("struct {{ {members} }}: |:S| and |:[3]S| print `{}`, the layout model gives `{want}`", lines[i]));
+					w.result.violation(&format!("wrong-size:{what}"), members.len() as u64, &desc, || format!("struct {{ {members} }}: |:S|, |:[3]S| in main and as constants declared before the structure print `{}`, the layout model gives `{want}`", lines[i]));
 				}
 				else
 				{
